@@ -637,10 +637,71 @@ NAMES = {
 }
 
 
+def _r3_names_eval(r, ctx, fn):
+    """Formatter::from_name_and_args evaluated (rules/absint.py) for every documented name, an unknown one, with each ICU feature on /
+    off and with the build helper's flag: name -> Formatter::<family>(options each read from the arguments by its own from_args),
+    Ok(Some(..)) when the family's feature (or the flag) is on, Err(the same formatter) otherwise, Ok(None) for an unknown name"""
+    from rules import absint
+    from rules.absint import AEval, C, A, B
+    absint.set_program(ctx.ast)
+    S = lambda x: ("str", x)  # noqa: E731
+    n_ok = 0
+    for name, (var, tys, feat) in list(NAMES.items()) + [("bogus", (None, [], None)), ("", (None, [], None)), ("Currency", (None, [], None))]:
+        for feat_on in (True, False):
+            for skip in (False, True):
+                asked = []
+
+                def cfgf(t_, feat_on=feat_on, asked=asked):
+                    m_ = re.search(r'feature="(\w+)"', t_)
+                    asked.append(m_.group(1) if m_ else t_)
+                    return feat_on
+                ev = AEval(funcs={})
+                ev.cfg = cfgf
+                ev.builtins["get"] = lambda rv, a, skip=skip: B(skip) if rv[0] == "atom" or rv == absint.DEFAULT else NotImplemented
+                ev.consts = {"SKIP_ICU_CFG": A("SKIP_ICU_CFG")}
+                for ty in ("CurrencyWidth", "CurrencyCode", "GroupingStrategy", "DateLength", "TimeLength", "ListType", "ListStyle"):
+                    ev.path_builtins[ty + "::from_args"] = (lambda a, ty=ty: C("OptionOf", S(ty), a[0]))
+                got = ev.run_fn(fn, [S(name), A("ARGS")])
+                if isinstance(got, str):
+                    raise absint.Unknown("%s (from_name_and_args %r)" % (got, name))
+                if var is None:
+                    want = C("Ok", C("None"))
+                else:
+                    fm = C(var, *[C("OptionOf", S(t_), A("ARGS")) for t_ in tys])
+                    want = C("Ok", C("Some", fm)) if (feat_on or skip) else C("Err", fm)
+                if got != want:
+                    r.viol("R3:from_name_and_args#%s" % (name or "empty"), 'name "%s" with feature %s%s resolves to %s, expected %s' % (name, "on" if feat_on else "off", ", ICU checks skipped" if skip else "", absint.fmt(got)[:200], absint.fmt(want)[:200]), file=PF, line=fn.line)
+                    return True
+                if var is not None and set(asked) - {feat}:
+                    r.viol("R3:from_name_and_args#%s#gate" % name, 'name "%s" is gated by %s, documented: %s' % (name, sorted(set(asked)), feat), file=PF, line=fn.line)
+                    return True
+                n_ok += 1
+        if var is not None:
+            r.inst('"%s"' % name, "Formatter::%s(%s) when %s (or ICU checks skipped), else Err(the same formatter)" % (var, ", ".join(tys), feat))
+    r.inst("from_name_and_args (evaluated)", "%d evaluations: 6 documented names + unknown / empty / differently cased names x feature on / off x flag" % n_ok)
+    return True
+
+
 def _r3_names(r, ctx):
     fn = ctx.ast.fn(PF, "from_name_and_args")
     if fn is None:
         r.missing("from_name_and_args")
+        return
+    try:
+        from rules import absint as _ai
+        done = _r3_names_eval(r, ctx, fn)
+    except _ai.Unknown as u:
+        done = False
+        r.viol("R3:from_name_and_args#undecided", "cannot be interpreted on the current code (%s): not decided on this tree (fail closed); structural clauses follow" % str(u)[:300], file=PF, line=fn.line)
+    if done:
+        md = ""
+        try:
+            md = ctx.read(BOOK)
+        except OSError:
+            pass
+        for name in NAMES:
+            if not re.search(r"\{\{\s*\w+\s*,\s*%s\b" % name, md):
+                r.viol("R3:book#%s" % name, "the book has no `{{ var, %s }}` example" % name, file=BOOK)
         return
     n = find_first(fn.body, "If")
     seen = {}
